@@ -50,3 +50,12 @@ Theorem C15_reachable_tree_is_compressed :
   forall builtins (ops : list op), comp (r_root (run builtins ops)) = true.
 Proof. intros b ops. apply (reachable_cinv b ops). Qed.
 Print Assumptions C15_reachable_tree_is_compressed.
+
+(* ---- the canonical tree of a set of routes is unique ---- *)
+From WF Require Import Model.Display Proofs.InsRoutesP Proofs.UniqueP Proofs.UniqueDisplayP.
+Print Good.
+Theorem C15_canonical_tree_is_unique :
+  forall n1 n2, Good n1 -> Good n2 -> (forall r i, RM n1 r i <-> RM n2 r i) ->
+    erase n1 = erase n2 /\ display n1 = display n2.
+Proof. intros n1 n2 G1 G2 H. split; [apply canonical_unique|apply same_routes_same_display]; assumption. Qed.
+Print Assumptions C15_canonical_tree_is_unique.
